@@ -6,7 +6,7 @@ ID=$1
 TIER=${2:-${VERIF_TIER:-quick}}
 RACE=
 case "$ID" in C16) RACE=-race ;; esac
-[ "$TIER" = thorough ] && case "$ID" in C05r) RACE=-race ;; esac
+[ "$TIER" = thorough ] && case "$ID" in C05) RACE=-race ;; esac
 mkdir -p bin out
 BIN=bin/verif.$$
 trap 'rm -f "$BIN"' EXIT INT TERM
